@@ -113,6 +113,9 @@ type (
 		values    []expr
 		returning []expr
 		retStar   bool
+		// ON CONFLICT [(cols)] DO NOTHING
+		onConflictNothing bool
+		conflictCols      []string
 	}
 	setClause struct {
 		cols  []string
@@ -493,6 +496,20 @@ func (p *parser) insertStmt() (any, *Error) {
 	}
 	if p.isSym(",") {
 		return nil, p.errHere("multi-row INSERT not supported by the simulator")
+	}
+	if p.acceptKw("on", "conflict") {
+		if p.isSym("(") {
+			if s.conflictCols, err = p.identList(); err != nil {
+				return nil, err
+			}
+		}
+		if err := p.expectKw("do"); err != nil {
+			return nil, err
+		}
+		if !p.acceptKw("nothing") {
+			return nil, p.errHere("ON CONFLICT DO UPDATE not supported by the simulator")
+		}
+		s.onConflictNothing = true
 	}
 	if s.returning, s.retStar, err = p.returning(); err != nil {
 		return nil, err
